@@ -70,6 +70,20 @@ def gen_cases(tier, seed):
                            "big"]),
                       "layout": rnd.choice(["C", "C", "F", "view"]),
                       "vseed": rnd.randrange(2 ** 32)})
+    # directed: larger arrays (dimensions beyond 32 / 64, odd sizes, production-like chunk)
+    for k in range(6 if tier == "quick" else 60):
+        method = rnd.choice(["average", "average_outside", "majority", "stride"])
+        shape = [rnd.choice([1, 2]), rnd.choice([33, 40, 64, 65]), rnd.choice([17, 32, 33]),
+                 rnd.choice([31, 64, 67])]
+        if method == "majority":
+            shape = [1, rnd.choice([17, 33]), rnd.choice([16, 18]), rnd.choice([31, 34])]
+        cases.append({"method": method, "dtype": rnd.choice(DTYPES), "shape": shape,
+                      "factors": [rnd.choice([1, 2]) for _ in range(3)] if method.startswith(
+                          "average") else [rnd.choice([1, 2, 3]) for _ in range(3)],
+                      "outside": 3.0 if method == "average_outside" else None,
+                      "pattern": rnd.choice(["random", "limits", "labels", "big"]),
+                      "layout": rnd.choice(["C", "F"]), "vseed": rnd.randrange(2 ** 32),
+                      "large": True})
     # unsupported factor triples
     for method, factors in [("average", [3, 1, 1]), ("average", [1, 4, 2]),
                             ("average", [0, 1, 1]), ("average", [2, 2]),
@@ -168,6 +182,7 @@ def run_case(case):
     factors = case["factors"]
     ds = _downscaler(case)
     obs = {"methods": {case["method"]: 1}, "dtypes": {case["dtype"]: 1}, "voxels": 0,
+           "large_arrays": int(bool(case.get("large"))),
            "ties": 0, "overhang_blocks": 0, "unsupported_probes": 0}
     before = base.tobytes()
     try:
@@ -280,4 +295,5 @@ def gates(obs, tier):
         "ties_seen": obs.get("ties", 0) > 50,
         "overhanging_blocks_seen": obs.get("overhang_blocks", 0) > 50,
         "unsupported_probes_run": obs.get("unsupported_probes", 0) >= 10,
+        "arrays_beyond_64_per_axis": obs.get("large_arrays", 0) > 0,
     }
